@@ -9,9 +9,18 @@ theorems (Props/C03_tr.v; model SV/Translate.v, proofs SV/TranslateSound.v):
   C03_tr_assign_{signal,part_select,bit,temporary}, C03_tr_assign_exec
                                     one emitted `=` / `<=`: target place and transferred value = what exec_assign stores
   C03_tr_if                         the emitted if runs the translation of the branch python runs
+  C03_tr_comb_block_sound           WHOLE always_comb block of a plain design (plain_ok: one scalar variable per signal, no
+                                    list of signals) accepted by comb_ok (any assignment target, nested if/elif/else,
+                                    temporaries, no for): from related states, the emitted block run by SvEval leaves in
+                                    every signal / field / temporary what the simulator semantics leaves
+  C03_tr_ff_block_sound             the same for always_ff blocks (ff_ok): after the commit of the pending non-blocking
+                                    writes every signal holds the simulator's post-edge value (final_sig)
+  C03_tr_block_invariant, C03_tr_block_start, C03_tr_stmt_preserves   the relation `inv` is preserved by every accepted
+                                    statement under the threaded typing environment, and holds where a block starts
   C03_tr_sexpr_eqb_eq, C03_tr_tie_{expr,lhs}_sound   the comparison of the tie is equality up to a normalisation that
                                     preserves value, width and denoted place
-  NOT proved: TranslateSound.tr_block_sound_partial (for loops, sequencing, next-state correspondence)
+  NOT proved: for loops (the iteration correspondence loop_count vs SvEval's fuel loop) and blocks over lists of signals
+  (TranslateSound.tr_block_sound_partial is the general statement; sampled differentially, see below)
 
 tie, per update block of every design C03 runs (generated, directed, stdlib, test-case catalogue) and of the rtlfoot
 corpus, for every component of the hierarchy:
@@ -27,8 +36,9 @@ corpus, for every component of the hierarchy:
       W = clog2(length), __tmpvar__<blk>_<name>, <blk>.<name>), never from the emitted text.
 A mismatch is a violation  C03:tr-mismatch:<shape>  whose replay holds the design source, the block, both terms and —
 when one is found — an input vector on which SvEval of the emitted block and RTL.Eval of the source block differ.
-The same Coq run evaluates the acceptor  blk_ok  (every expression of the block in the domain of C03_tr_expr_sound, every
-assignment in that of C03_tr_assign_*) on every compared block, and executes every covered block both ways on random
+The same Coq run evaluates the acceptors  blk_ok  (every expression of the block in the domain of C03_tr_expr_sound, every
+assignment in that of C03_tr_assign_*) and  plain_ok + comb_ok / ff_ok  (the block theorems, instantiated with the
+declarations of the signals the block mentions) on every compared block, and executes every covered block both ways on random
 signal values (Translate.blk_diff: the EMITTED always block in SvEval, the source block in RTL.Eval) — the statement-level
 claim TranslateSound.tr_block_sound_partial is NOT proved, this samples it; a difference is C03:tr-sound-counterexample.
 The counts go to the evidence (share of generated blocks the theorems cover, per-constructor coverage).
@@ -43,20 +53,27 @@ from rtlblk2coq import Outside, zlit as rzlit, natlist, coq_list as rcoq_list
 IMPORTS = 'Base.Prelude Bits.BitsSpec RTL.Syntax RTL.Eval RTL.Typing SV.Translate'
 DEFS = '''
 (* names, declarations, RTL term of the update block, parsed always block, emitted module (items dropped), #signals,
-   signals the block writes *)
-Definition trcase := (names * decls * list stmt * list S.stmt * S.module * nat * list nat)%type.
+   signals the block writes, #temporaries, is it an update_ff block, the declarations of the signals the block mentions *)
+Definition trcase := (names * decls * list stmt * list S.stmt * S.module * nat * list nat * nat * bool * decls)%type.
 (* the tie: the model translator yields the emitted block *)
 Definition tr_case_ok (c : trcase) : bool :=
-  let '(nm, G, t, p, m, _, _) := c in sv_block_eqb (params_of (S.m_params m)) (tr_block nm G t) p.
+  let '(nm, G, t, p, m, _, _, _, _, _) := c in sv_block_eqb (params_of (S.m_params m)) (tr_block nm G t) p.
 (* where the soundness theorems apply *)
 Definition tr_case_thm (c : trcase) : bool :=
-  let '(nm, G, t, _, m, _, _) := c in blk_ok (X.mod_tenv m) nm G t.
+  let '(nm, G, t, _, m, _, _, _, _, _) := c in blk_ok (X.mod_tenv m) nm G t.
 (* Translate.blk_diff: 0 the simulator raises on this input (no comparison); 1 both agree on the written signals; 2 they differ *)
 Definition tr_diff (c : trcase) (inputs : list Z) : nat :=
-  let '(nm, G, t, p, m, nsig, wr) := c in blk_diff nm G t p m nsig wr inputs.
+  let '(nm, G, t, p, m, nsig, wr, _, _, _) := c in blk_diff nm G t p m nsig wr inputs.
 Definition tr_diffs (c : trcase) (ins : list (list Z)) : list nat := map (tr_diff c) ins.
-(* one answer per block: 0 equal + covered, 1 mismatch, 2 equal but outside the acceptor, 3 both *)
-Definition tr_case_code (c : trcase) : nat := ((if tr_case_ok c then 0 else 1) + (if tr_case_thm c then 0 else 2))%nat.
+(* where the BLOCK theorems C03_tr_comb_block_sound / C03_tr_ff_block_sound apply *)
+Definition tr_case_blk (c : trcase) : bool :=
+  let '(nm, G, t, _, m, _, _, ntmp, isff, Gu) := c in
+  (* the theorem is instantiated with the declaration table restricted to the signals the block mentions *)
+  plain_ok (X.mod_tenv m) nm Gu ntmp && (if isff then ff_ok (X.mod_tenv m) nm ntmp Gu t else comb_ok (X.mod_tenv m) nm ntmp Gu t) &&
+  sv_block_eqb (params_of (S.m_params m)) (tr_block nm Gu t) (tr_block nm G t).
+(* one answer per block: +1 mismatch, +2 outside blk_ok (expression / assignment theorems), +4 outside the block theorems *)
+Definition tr_case_code (c : trcase) : nat :=
+  ((if tr_case_ok c then 0 else 1) + (if tr_case_thm c then 0 else 2) + (if tr_case_blk c then 0 else 4))%nat.
 '''
 
 # ---------------------------------------------------------------------- rtlblk2coq in non-folding mode
@@ -246,7 +263,7 @@ def design_blocks(ctx, st, d, text_expected=None):
         st.outside('no always block with the label of the update block', kind)
         continue
       try:
-        case = make_case(f, mod, m, tab, tr, b, stmts, body, blk.__name__)
+        case = make_case(f, mod, m, tab, tr, b, stmts, body, blk.__name__, isff=(kind == 'ff'))
       except Outside as e:
         st.outside(re.sub(r'\s+', ' ', str(e))[:60], kind); continue
       st.translated += 1
@@ -281,15 +298,16 @@ _SVCON = re.compile(r'\b(ELit|ENum|EId|EMember|EIndex|ERange|EPlusRange|EConcat|
 def svq(txt):
   """qualify the constructors of SV/SvSyntax.v (the case file also mentions RTL/Syntax.v, which has an ELit, an SIf ... of its own)"""
   return _SVCON.sub(r'S.\1', txt)
-def make_case(f, mod, m, tab, tr, b, stmts, body, blkname):
+def make_case(f, mod, m, tab, tr, b, stmts, body, blkname, isff=False):
   P = lambda n: f'{f.intern.id(n)}%positive'
   used = set(b.rd) | set(b.wr)
-  sg, fl, decls, el = [], [], [], []
+  sg, fl, decls, el, decls_used = [], [], [], [], []
   for q, i in sorted(tab.sigtab.items(), key=lambda kv: kv[1]):
     T = q._dsl.Type
     sh = shape_fields(T, tr.is_struct)
     for p, w, off, isst, fname in shape_paths(sh):
       decls.append(f'({i}%nat, {natlist(p)}, {{| fw := {w}; flo := {off}; fstruct := {"Some 0%nat" if isst else "None"} |}})')
+      if i in used: decls_used.append(decls[-1])
       if p: fl.append(f'({i}%nat, {natlist(p)}, {P(fname)})')
     ch = chain_from(m, q)
     if ch is None:
@@ -307,7 +325,7 @@ def make_case(f, mod, m, tab, tr, b, stmts, body, blkname):
   t = rcoq_list([rtlblk2coq.stmt_coq(s) for s in stmts])
   p = svq(svparse.clist([f.stmt_coq(s) for s in body]))
   wr = rcoq_list([f'{i}%nat' for i in sorted(b.wr)])
-  return f'({nm}, {rcoq_list(decls)}, {t}, {p}, {md}, {len(tab.sigs)}%nat, {wr})'
+  return f'({nm}, {rcoq_list(decls)}, {t}, {p}, {md}, {len(tab.sigs)}%nat, {wr}, {len(b.tmps)}%nat, {"true" if isff else "false"}, {rcoq_list(decls_used)})'
 
 # ---------------------------------------------------------------------- run
 class _State:
@@ -401,7 +419,7 @@ def run(ctx, results=None, designs=None, verbose=False):
     'translators/rtlblk2coq.py (python AST of an update block -> RTL/Syntax.v term; used non-folding by harness/c03_tr.py; validated against the real block functions by the C01/C10 footprint checks) and the spelling of signal / temporary / loop-variable numbers computed by harness/c03_tr.py from the pymtl3 objects',
   ]
   ctx.assumptions += [
-    'translator model (SV/Translate.v): expressions are proved sound for all 18 constructors under the acceptor sv_ok (Props/C03_tr.v); statements (assignment, if, for, whole blocks) are covered by the per-block syntactic tie tr_block = emitted text and by differential evaluation of both semantics on random inputs, not by a proof yet; structural translation (ports, wires, connections, instances, struct packing) stays translation validation (replay of the emitted module)',
+    'translator model (SV/Translate.v): proved sound for all 18 expression constructors (sv_ok), single assignments, if, and WHOLE always_comb / always_ff blocks of plain designs without for loops (plain_ok + comb_ok / ff_ok; the evidence gives the share of blocks); for loops and blocks over lists of signals are covered by the per-block syntactic tie tr_block = emitted text and by differential evaluation of both semantics on random inputs (blk_diff), not by a proof; structural translation (ports, wires, connections, instances, struct packing) stays translation validation (replay of the emitted module)',
   ]
   if not build(ctx): return None, []
   st = _State()
@@ -425,6 +443,7 @@ def run(ctx, results=None, designs=None, verbose=False):
   res = eval_cases(ctx, 'trtie', st.blocks, ins) if st.blocks else []
   bad = [i for i, (c, _) in enumerate(res) if c & 1]
   uncovered = [i for i, (c, _) in enumerate(res) if c & 2]
+  noblk = [i for i, (c, _) in enumerate(res) if c & 4]
   t2 = time.time()
   badset, unc = set(bad), set(uncovered)
   # (i) mismatching blocks: search an input on which the emitted block and the source block differ
@@ -433,7 +452,7 @@ def run(ctx, results=None, designs=None, verbose=False):
   bad_ins = [rand_inputs(rng, x.widths, nvec_bad) for x in bad_blocks]
   bad_codes = [d for _, d in eval_cases(ctx, 'trwit', bad_blocks, bad_ins, per_file=4)] if bad_blocks else []
   for x, vecs, codes in zip(bad_blocks, bad_ins, bad_codes):
-    out = ctx.coq_eval('trwhy', IMPORTS, DEFS, [f"(fun c : trcase => let '(nm, G, t, p, m, _, _) := c in tr_block nm G t) {x.case}"])
+    out = ctx.coq_eval('trwhy', IMPORTS, DEFS, [f"(fun c : trcase => let '(nm, G, t, p, m, _, _, _, _, _) := c in tr_block nm G t) {x.case}"])
     wit = next((vec for vec, c in zip(vecs, codes) if c == 2), None)
     key = f'C03:tr-mismatch:{shape_of_mismatch(x)}'
     ctx.violation(key, f'design {x.key[0]}, module {x.key[1]}, block {x.key[2]}: SV/Translate.tr_block of the update block differs from the always block the translator emitted' +
@@ -465,7 +484,11 @@ def run(ctx, results=None, designs=None, verbose=False):
   ctx.extra['translator_model_tie'] = {
     'blocks_total': st.total, 'blocks_translated_and_compared': st.translated, 'blocks_outside': st.total - st.translated,
     'blocks_equal': st.translated - len(bad), 'blocks_mismatch': len(bad),
-    'blocks_where_soundness_theorem_applies(blk_ok)': st.translated - len(unc),
+    'blocks_where_expression_and_assignment_theorems_apply(blk_ok)': st.translated - len(unc),
+    'blocks_where_block_theorem_applies(plain_ok+comb_ok/ff_ok)': st.translated - len(set(noblk) | badset),
+    'share_of_all_blocks_covered_by_block_theorem': round((st.translated - len(set(noblk) | badset)) / st.total, 3) if st.total else None,
+    'block_theorem_by_kind': {k: sum(1 for i, x in enumerate(st.blocks) if x.kind == k and i not in set(noblk) and i not in badset) for k in ('comb', 'ff')},
+    'block_theorem_not_applicable_examples': [f'{st.blocks[i].key[0]}.{st.blocks[i].key[2]}' for i in noblk if i not in unc][:8],
     'share_of_all_blocks_covered_by_theorem': round((st.translated - len(unc | badset)) / st.total, 3) if st.total else None,
     'share_of_compared_blocks_covered_by_theorem': round((st.translated - len(unc | badset)) / st.translated, 3) if st.translated else None,
     'differential_samples_on_covered_blocks': {'vectors': nv, 'agree': agree, 'python_raises': raised},
@@ -477,4 +500,5 @@ def run(ctx, results=None, designs=None, verbose=False):
   }
   for k, v in st.hist.items(): ctx.hist['tr:' + k] = ctx.hist.get('tr:' + k, 0) + v
   ctx.hist['tr:block:theorem-applies'] = st.translated - len(unc | badset)
+  ctx.hist['tr:block:block-theorem-applies'] = st.translated - len(set(noblk) | badset)
   return st, bad
